@@ -277,6 +277,9 @@ type Association struct {
 	myNextRSN        uint32
 	reconfigs        map[uint32]*chunkReconfig
 	reconfigRequests map[uint32]*paramOutgoingResetRequest
+	// bytes acknowledged by the SACK being processed for streams that are no
+	// longer registered under their identifier
+	ackedBytesDetached []detachedStreamCredit
 	// peer reset requests already performed (to recognize retransmissions):
 	// the recent ones individually, older ones by the highest number performed
 	performedPeerRSNs       map[uint32]struct{}
@@ -2720,6 +2723,33 @@ func (a *Association) getOrCreateStream(
 	return s
 }
 
+type detachedStreamCredit struct {
+	stream *Stream
+	nBytes int
+}
+
+// creditAckedBytes books newly acknowledged bytes of a chunk to the stream that sent
+// it. Normally that is the stream registered under the chunk's identifier. A stream
+// that was unregistered by the peer's reset while its data was still in flight (or
+// whose identifier has been re-opened since) is credited directly, so that its
+// BufferedAmount is released all the same.
+// The caller should hold the lock.
+func (a *Association) creditAckedBytes(perStream map[uint16]int, c *chunkPayloadData, n int) {
+	if c.stream != nil && a.streams[c.streamIdentifier] != c.stream {
+		for i := range a.ackedBytesDetached {
+			if a.ackedBytesDetached[i].stream == c.stream {
+				a.ackedBytesDetached[i].nBytes += n
+
+				return
+			}
+		}
+		a.ackedBytesDetached = append(a.ackedBytesDetached, detachedStreamCredit{stream: c.stream, nBytes: n})
+
+		return
+	}
+	perStream[c.streamIdentifier] += n
+}
+
 // The caller should hold the lock.
 //
 //nolint:gocognit,cyclop
@@ -2732,6 +2762,7 @@ func (a *Association) processSelectiveAck(selectiveAckChunk *chunkSelectiveAck) 
 	err error,
 ) {
 	bytesAckedPerStream = map[uint16]int{}
+	a.ackedBytesDetached = a.ackedBytesDetached[:0]
 	now := time.Now() // capture the time for this SACK
 
 	// Validate that full range exists in the inflight queue to prevent partial pops
@@ -2796,11 +2827,7 @@ func (a *Association) processSelectiveAck(selectiveAckChunk *chunkSelectiveAck) 
 			nBytesAcked := len(chunkPayload.userData)
 
 			// Sum the number of bytes acknowledged per stream
-			if amount, ok := bytesAckedPerStream[chunkPayload.streamIdentifier]; ok {
-				bytesAckedPerStream[chunkPayload.streamIdentifier] = amount + nBytesAcked
-			} else {
-				bytesAckedPerStream[chunkPayload.streamIdentifier] = nBytesAcked
-			}
+			a.creditAckedBytes(bytesAckedPerStream, chunkPayload, nBytesAcked)
 
 			// RFC 4960 sec 6.3.1.  RTO Calculation
 			//   C4)  When data is in flight and when allowed by rule C5 below, a new
@@ -2862,11 +2889,7 @@ func (a *Association) processSelectiveAck(selectiveAckChunk *chunkSelectiveAck) 
 				nBytesAcked := a.inflightQueue.markAsAcked(tsn)
 
 				// Sum the number of bytes acknowledged per stream
-				if amount, ok := bytesAckedPerStream[chunkPayload.streamIdentifier]; ok {
-					bytesAckedPerStream[chunkPayload.streamIdentifier] = amount + nBytesAcked
-				} else {
-					bytesAckedPerStream[chunkPayload.streamIdentifier] = nBytesAcked
-				}
+				a.creditAckedBytes(bytesAckedPerStream, chunkPayload, nBytesAcked)
 
 				a.log.Tracef("[%s] tsn=%d has been sacked", a.name, chunkPayload.tsn)
 
@@ -3078,6 +3101,9 @@ func (a *Association) processAcknowledgement(
 	for _, nBytesAcked := range bytesAckedPerStream {
 		totalBytesAcked += nBytesAcked
 	}
+	for _, d := range a.ackedBytesDetached {
+		totalBytesAcked += d.nBytes
+	}
 
 	cumTSNAckPointAdvanced := false
 	if sna32LT(a.cumulativeTSNAckPoint, selectiveAckChunk.cumulativeTSNAck) {
@@ -3097,6 +3123,12 @@ func (a *Association) processAcknowledgement(
 			s.onBufferReleased(nBytesAcked)
 			a.lock.Lock()
 		}
+	}
+	detached := append([]detachedStreamCredit(nil), a.ackedBytesDetached...)
+	for _, d := range detached {
+		a.lock.Unlock()
+		d.stream.onBufferReleased(d.nBytes)
+		a.lock.Lock()
 	}
 
 	return acknowledgementResult{
